@@ -32,7 +32,13 @@ fn Wrap(children: Children) -> impl IntoView {
 
 mod templates {
     use super::Wrap;
+    use futures::StreamExt;
     use leptos::prelude::*;
+    use leptos::tachys::ssr::StreamBuilder;
+    /// everything a (synchronous) view streams, concatenated
+    fn collect(sb: StreamBuilder) -> String {
+        futures::executor::block_on(sb.collect::<String>())
+    }
     include!(concat!(env!("OUT_DIR"), "/templates.rs"));
 }
 use templates::{N_SHAPES, TEMPLATES};
@@ -222,10 +228,66 @@ fn rename_svg(h: &str) -> String {
     o
 }
 
-fn parse_norm(h: &str) -> Option<Vec<Tree>> {
+/// one flag per `<noscript>` of the template, in document order: does it have element children?  Such a
+/// noscript is read as a user agent WITHOUT scripting reads it (its content is markup); a noscript with only
+/// strings as the parser with scripting reads it (raw text).
+fn noscript_flags(nodes: &[Tmpl]) -> Vec<bool> {
+    fn has_elem(nodes: &[Tmpl]) -> bool {
+        nodes.iter().any(|n| match n {
+            Tmpl::Elem(..) | Tmpl::Comp(_) => true,
+            Tmpl::Frag(k) => has_elem(k),
+            _ => false,
+        })
+    }
+    fn go(nodes: &[Tmpl], out: &mut Vec<bool>) {
+        for n in nodes {
+            match n {
+                Tmpl::Elem(tag, _, kids) => {
+                    if tag == "noscript" {
+                        out.push(has_elem(kids));
+                    }
+                    go(kids, out);
+                }
+                Tmpl::Frag(k) | Tmpl::Comp(k) => go(k, out),
+                _ => {}
+            }
+        }
+    }
+    let mut out = vec![];
+    go(nodes, &mut out);
+    out
+}
+
+/// re-parse the raw text of the flagged `<noscript>` elements as markup (document order)
+fn reparse_noscript(ts: Vec<Tree>, flags: &mut std::collections::VecDeque<bool>) -> Option<Vec<Tree>> {
+    let mut out = vec![];
+    for t in ts {
+        match t {
+            Tree::Elem { tag, attrs, kids } => {
+                let kids = if tag == "noscript" && flags.pop_front().unwrap_or(false) {
+                    let raw: String = match kids.as_slice() {
+                        [] => String::new(),
+                        [Tree::Text(t)] => t.clone(),
+                        _ => return None,
+                    };
+                    html::parse(&raw)?
+                } else {
+                    kids
+                };
+                out.push(Tree::Elem { tag, attrs, kids: reparse_noscript(kids, flags)? });
+            }
+            t => out.push(t),
+        }
+    }
+    Some(out)
+}
+
+fn parse_norm(h: &str, flags: &[bool]) -> Option<Vec<Tree>> {
     // a leading doctype is outside the parser subset and not part of the tree
     let h = h.strip_prefix("<!DOCTYPE html>").unwrap_or(h);
-    html::parse(&rename_svg(h)).map(|t| normalise(&t))
+    let t = html::parse(&rename_svg(h))?;
+    let mut f: std::collections::VecDeque<bool> = flags.iter().copied().collect();
+    Some(normalise(&reparse_noscript(t, &mut f)?))
 }
 
 /// append `v` as text to the children of the `site`-th element (pre-order), or to the roots
@@ -299,15 +361,35 @@ fn op(line: &str, st: &mut St, family: &[Shape], tags: &HashMap<String, String>)
                 Ok(o) => o,
                 Err(_) => return "panic ## fail panic".into(),
             };
-            let got = parse_norm(&out);
+            // every rendering entry point must yield the document the template denotes
             let want = denote(&t);
-            let verdict = match &got {
-                Some(g) if *g == want => "ok".to_string(),
-                Some(g) => format!("fail mismatch got={} want={}", html::show(g).replace(' ', "_"), html::show(&want).replace(' ', "_")),
-                None => "fail unparsable".to_string(),
-            };
-            st.seen.insert(v, got);
-            format!("{} ## {}", hex(out.as_bytes()), verdict)
+            let flags = noscript_flags(&t);
+            let mut verdict = "ok".to_string();
+            let mut first = None;
+            for (i, o) in out.iter().enumerate() {
+                let got = parse_norm(o, &flags);
+                if verdict == "ok" {
+                    match &got {
+                        Some(g) if *g == want => {}
+                        Some(g) => {
+                            verdict = format!(
+                                "fail mismatch entry={} got={} want={}",
+                                ["to_html", "stream_in_order", "stream_out_of_order"][i],
+                                html::show(g).replace(' ', "_"),
+                                html::show(&want).replace(' ', "_")
+                            )
+                        }
+                        None => verdict = format!("fail unparsable entry={}", ["to_html", "stream_in_order", "stream_out_of_order"][i]),
+                    }
+                }
+                if i == 0 {
+                    first = Some(got);
+                }
+            }
+            st.seen.insert(v, first.unwrap());
+            // observable: to_html(), then the two streams (`=` when byte-identical to to_html())
+            let show = |o: &String| if *o == out[0] { "=".to_string() } else { hex(o.as_bytes()) };
+            format!("{} {} {} ## {}", hex(out[0].as_bytes()), show(&out[1]), show(&out[2]), verdict)
         }
         ["agree", site, extra] => {
             let site = if *site == "-" {
